@@ -96,16 +96,20 @@ theorem getConfigCheck_ok {s u i raw c} (hc : getConfigCheck s u i raw = .ok c) 
 
 theorem payloadGate_ok {s p env p'} (h : payloadGate s p env = .ok p') :
     (s.cfg.hasMod = false ∧ p' = p) ∨
-      (s.cfg.hasMod = true ∧ ((env.verdict = .valid ∧ p' = p) ∨ env.verdict = .altered p')) := by
+      (s.cfg.hasMod = true ∧ env.down = false ∧ ((env.verdict = .valid ∧ p' = p) ∨ env.verdict = .altered p')) := by
   unfold payloadGate at h
   split at h
   · next hm =>
-    right; refine ⟨hm, ?_⟩
+    right
     split at h
-    · next hv => cases h; exact Or.inl ⟨hv, rfl⟩
-    · next q hv => cases h; exact Or.inr hv
     · cases h
-    · cases h
+    · next hdn =>
+      refine ⟨hm, by simpa using hdn, ?_⟩
+      split at h
+      · next hv => cases h; exact Or.inl ⟨hv, rfl⟩
+      · next q hv => cases h; exact Or.inr hv
+      · cases h
+      · cases h
   · next hm => cases h; exact Or.inl ⟨by simpa using hm, rfl⟩
 
 theorem broadcastCheck_ok {s u i raw q p env c p'} (hc : broadcastCheck s u i raw q p env = .ok (c, p')) :
@@ -250,4 +254,11 @@ theorem leaveCheck_ok {s u i raw ob c m} (hc : leaveCheck s u i raw ob = .ok (c,
               have hd' : d = s.cfg.domain := by simpa using hd
               exact ⟨⟨h, by rw [hp, hd'], hf⟩, hlt, by simpa using hm⟩
 
+end Narwhal.Server
+
+namespace Narwhal.Server
+/-- a lost modulator link lets no payload through -/
+theorem payloadGate_down {s p env} (hm : s.cfg.hasMod = true) (hd : env.down = true) :
+    payloadGate s p env = .error .internalServerError := by
+  simp [payloadGate, hm, hd]
 end Narwhal.Server
